@@ -318,15 +318,14 @@ public:
     StringRef name(nameTok.start, nameTok.length);
 
     // Resolve the rule.
-    auto it = getCurrentScope().getRules().find(name);
-    Rule* rule;
-    if (it == getCurrentScope().getRules().end()) {
+    //
+    // Rules declared in an enclosing scope are visible in a subninja scope.
+    Rule* rule = getCurrentScope().lookupRule(name);
+    if (!rule) {
       error("unknown rule", nameTok);
 
       // Ensure we always have a rule for each command.
       rule = manifest->getPhonyRule();
-    } else {
-      rule = it->second;
     }
 
     // Resolve all of the inputs and outputs.
